@@ -1168,3 +1168,8 @@ PROPS["C07"]["partial_gap"] = PROPS["C07"]["partial_gap"].replace(
 assert "composition with DpMaster slot iteration" not in PROPS["C07"]["partial_gap"]
 assert "is not covered (fixed peripheral set)" not in PROPS["C04"]["partial_gap"]
 assert "does not judge them either" not in PROPS["C14"]["partial_gap"]
+#  C02 "whenever the set of online stations stops changing ... every station's list equals the set of online stations": the
+#      bus driver tags the window after the last disturbance (station stop / restart / corruption) C06; agreement of ring and
+#      ring views with the final population there is C02's claim too.  A panicking poll never passes the token on (C13).
+PROPS["C02"]["also"] = [("C06", "views"), ("C06", "rotation")]
+PROPS["C13"]["also"] = list(PROPS["C13"].get("also", [])) + [("C05", "panic")]
